@@ -163,6 +163,28 @@ func monC01(c *runCtx) {
 			idx++
 		}
 	}
+	// header lengths: the size field of "<kind> <n>\0" gains a digit at every power of ten (a reader that bounds the header
+	// search works up to one of them): 10^d - 1 and 10^d bytes for every kind, d = 1..7 (8-digit sizes = 10 MB and more)
+	for d := 1; d <= 7; d++ {
+		n := 1
+		for i := 0; i < d; i++ {
+			n *= 10
+		}
+		for _, sz := range []int{n - 1, n} {
+			for kk := 0; kk < 3; kk++ {
+				idx++
+				if idx%c.of != c.shard {
+					continue
+				}
+				kt, kind := kindOf(kk)
+				body := make([]byte, sz) // zeros compress to almost nothing: the size is the point, not the bytes
+				if sz > 0 {
+					body[sz-1] = byte(d)
+				}
+				doCase(idx, kt, kind, body, fmt.Sprintf("header-digits-%d", len(fmt.Sprint(sz))))
+			}
+		}
+	}
 	// boundaries of the ENCODED object ("<kind> <n>\0" + bytes) and of the COMPRESSED file: sizes that are exact multiples
 	// of a block (512 B .. 1 MiB, thorough .. 8 MiB), one below and one above; chunked readers and writers lose or
 	// refuse their last block exactly there
